@@ -36,6 +36,7 @@ def evalC13 (ins outs : List String) : Verdict :=
     match (answers.splitOn ",").mapM gansOf? with
     | none => .bad "C13 answers"
     | some ans =>
+      if kvNat? outs "slow" == some 1 then .prop "c13_fails_when_no_peer_answers" "still blocked 3 s after every per-peer request timed out" else
       match c13_ok op ans hdr err with
       | some c => .prop c s!"hdr={hdr} err={err}"
       | none =>
